@@ -79,6 +79,10 @@ def error_matches(loaded, contracts, exc: BaseException, cid: str) -> bool:
 
 
 def classify(model: Model, cls: str, key: str, what: str) -> str:
+    if model.copy_shadow(cls, key) is not None:
+        # mechanism: a class that only adds invariants holds a copy of the member it inherits from classes without
+        # invariants; in a join that copy is found before the sibling class that overrides the member
+        return "C04/inherited-member-copy-shadows-override-in-mro"
     o = model.owner(cls, key)
     # mechanism: several bases provide the member, one of them with no precondition at all
     cur = o
@@ -242,7 +246,7 @@ def run_spec(w, spec, meta) -> None:
 METACLASS_NAMES = ["__call__", "mro", "register", "__instancecheck__", "__subclasscheck__", "__subclasses__"]
 
 
-def specs(w):
+def specs(w, avoid_copy_shadow: bool = False):
     rng = w.rng
     thorough = w.tier == "thorough"
     shapes = gen.dag_shapes(1) + gen.dag_shapes(2) + gen.dag_shapes(3)
@@ -261,7 +265,7 @@ def specs(w):
                             continue
                         ids = gen.Ids()
                         spec = gen.hier_program(ids, rng, shape, kind, is_async, inv_prob=0.3, max_conj=2,
-                                                allow_reject=(variant == 2), avoid_mixed=False)
+                                                allow_reject=(variant == 2), avoid_mixed=False, avoid_copy_shadow=avoid_copy_shadow)
                         # now and then a foreign decorator above the contracts of an overriding member
                         if rng.random() < 0.3:
                             for c in spec["classes"]:
@@ -277,6 +281,17 @@ def specs(w):
                     continue
                 ids = gen.Ids()
                 yield (str(shape), kind, False, 0), gen.hier_program(ids, rng, shape, kind, False, inv_prob=0.3, max_conj=2)
+        # a class that only adds invariants to a base without invariants, joined BEFORE a sibling that overrides the member
+        if not avoid_copy_shadow:
+            for kind in ("method", "pset", "static"):
+                idx += 1
+                if idx % w.nshards != w.shard:
+                    continue
+                ids = gen.Ids()
+                spec = gen.hier_program(ids, rng, [[], [0], [0], [1, 2]], kind, False, choices=["plain", "absent", "both", "absent"], inv_prob=0.0,
+                                        avoid_copy_shadow=False)
+                spec["classes"][1]["invs"] = [gen.make_inv(ids, rng)]
+                yield ("copy-shadow", kind, False, 0), spec
         # member names that also exist on the metaclass (type / ABCMeta)
         for name in METACLASS_NAMES:
             idx += 1
